@@ -8,9 +8,8 @@ def register(R):
     from specs.a_common import matcher
     # every instance of a Mismatch class is truthy: no class of the family defines __bool__ / __len__ (scan `mismatch-objects-are-truthy`,
     # an obligation of this property)
-    R.axiom("mismatch_objects_truthy", {"r": "ref"}, "implies(isinstance(r, Mismatch), obj_truthy(r))")
-    R.axiom("mismatch_objects_not_containers", {"r": "ref"},
-            "implies(isinstance(r, Mismatch), not typeof_is(r, extclass('list')) and not typeof_is(r, extclass('set')) and "
+    R.axiom("mismatch_objects_truthy", {"r": "ref"},
+            "implies(isinstance(r, Mismatch), obj_truthy(r) and not typeof_is(r, extclass('list')) and not typeof_is(r, extclass('set')) and "
             "not typeof_is(r, extclass('frozenset')) and not typeof_is(r, extclass('dict')))")
     R.axiom("abstract_mismatches_truthy", {"r": "ref"}, "implies(is_shape_(r, 'AMismatch'), obj_truthy(r))")
     R.define("verdict_obj", ["v"], "isinstance(v, Mismatch) or is_shape_(v, 'AMismatch')")
